@@ -25,11 +25,13 @@ Sw   == [wrapFeerate |-> IOEnv.CP_WRAP_FEERATE = "true"]
 
 ObsOf(c, ev) == CASE ev = "setup" -> c.obs.setup
                   [] ev = "open" -> c.obs.open
-                  [] ev = "chain" -> "ok"
+                  [] ev \in {"chain", "chain2"} -> "ok"
+                  [] ev = "request1" -> c.obs.res1
                   [] ev = "request" -> c.obs.res
 ClsOf(c, ev) == CASE ev = "setup" -> c.obs.setup_cls
                   [] ev = "open" -> c.obs.open_cls
-                  [] ev = "chain" -> "none"
+                  [] ev \in {"chain", "chain2"} -> "none"
+                  [] ev = "request1" -> c.obs.res1_cls
                   [] ev = "request" -> c.obs.res_cls
 \* the harness names the refusing check after its message; the model names the rule
 RuleCls(r) == CASE r \in {"dust_b", "dust_c", "dust_off", "dust_rcv"} -> "dust"
@@ -38,8 +40,11 @@ RuleCls(r) == CASE r \in {"dust_b", "dust_c", "dust_off", "dust_rcv"} -> "dust"
 
 \* which arithmetic class an accepted commitment is in (part of the finding key)
 Detail(c, s, ev) ==
-  IF ev \notin {"request", "open"} THEN "-"
-  ELSE LET r    == IF ev = "request" THEN c.req ELSE c.pre.holder
+  IF ev \notin {"request", "request1", "open"} THEN "-"
+  ELSE IF c.kind = "seq" /\ ev = "request" /\ Fresh(s, c.side, c.n, c.req)
+            /\ \E t \in s.acc : t[1] = c.side /\ t[2] = c.n
+         THEN "changed-contents-for-an-accepted-number"
+  ELSE LET r    == IF ev = "open" THEN c.pre.holder ELSE ReqOfEv(c, ev)
            outs == Outputs(r) IN
        IF ~FitsU64(outs) THEN "sum>=2^64"
        ELSE IF Gt(outs, c.setup.value) THEN "outputs>value"
@@ -94,7 +99,7 @@ ReportOf(S) ==
   LET All == Flat(S)
       At(p) == S[p[1]][p[2]]
       Violating == {p \in All : At(p).obs = "ok" /\ At(p).binding # {}}
-      Stricter  == {p \in All : At(p).obs = "refused" /\ At(p).binding = {} /\ At(p).ev # "chain"}
+      Stricter  == {p \in All : At(p).obs = "refused" /\ At(p).binding = {} /\ At(p).ev \notin {"chain", "chain2"}}
       Panicked  == {p \in All : At(p).obs = "panic"}
       Diverging == {p \in All : LET s == At(p) IN
                       /\ s.obs # "panic"
@@ -117,7 +122,7 @@ ReportOf(S) ==
   IN
   [ records      |-> NLog,
     steps        |-> Cardinality(All),
-    accepted     |-> Cardinality({p \in All : At(p).obs = "ok" /\ At(p).ev # "chain"}),
+    accepted     |-> Cardinality({p \in All : At(p).obs = "ok" /\ At(p).ev \notin {"chain", "chain2"}}),
     refused      |-> Cardinality({p \in All : At(p).obs = "refused"}),
     panics       |-> Cardinality(Panicked),
     panic_samples |-> Some(Panicked, 5),
